@@ -148,6 +148,7 @@ func (c *Ctx) GoEnv(extra ...string) []string {
 	env = append(env,
 		"PATH="+filepath.Dir(c.GoBin)+":"+os.Getenv("PATH"),
 		"GOTOOLCHAIN=local", "GOFLAGS=-mod=mod", "GOPROXY=off", "GOSUMDB=off", "GOWORK=off",
+		"GOCACHE="+GoCacheDir(),
 	)
 	return append(env, extra...)
 }
@@ -335,6 +336,7 @@ func (c *Ctx) Finish(runErr error) int {
 			code = ExitInfra
 		}
 	}
+	TrimGoCache(6000)
 	if code == ExitOK {
 		fmt.Printf("OK property=%s tier=%s seed=%d wall=%.1fs\n", c.Prop, c.Tier, c.Seed, c.Ev.WallS)
 	}
@@ -356,6 +358,24 @@ func SeedFromEnv() int64 {
 		}
 	}
 	return 1
+}
+
+// GoCacheDir is the build cache shared by all checks (thousands of generated driver packages are compiled per
+// run; the default cache grew to tens of GB). It is only a cache: TrimGoCache empties it when it gets large.
+func GoCacheDir() string { return getenv("VERIF_GOCACHE", filepath.Join(os.TempDir(), "verif-gocache")) }
+
+// TrimGoCache removes the shared build cache when it exceeds limitMB.
+func TrimGoCache(limitMB int64) {
+	var total int64
+	filepath.Walk(GoCacheDir(), func(_ string, info os.FileInfo, err error) error {
+		if err == nil && !info.IsDir() {
+			total += info.Size()
+		}
+		return nil
+	})
+	if total > limitMB<<20 {
+		os.RemoveAll(GoCacheDir())
+	}
 }
 
 // NewRand returns a deterministic PRNG for the given seed.
